@@ -16,7 +16,11 @@ CLAIM = dict(
           "MinimisationFailedError carries the target and the best size reached; all loops terminate (no other outcome "
           "exists). The exhaustive oracle run on the implementation's tables is proved equivalent to RouteEquiv over all "
           "2^32 keys. Tied to the code by exact equality of output tables and alias dictionaries of every minimiser, of "
-          "_get_best_merge and _get_insertion_index, on generated tables, and by that oracle on every returned table. "
+          "_get_best_merge and _get_insertion_index, on generated tables, and by that oracle on every returned table - "
+          "including sequences of calls in one process whose tables are derived from earlier results (history stream) "
+          "and minimise_tables calls / call sequences over RELATED chips (same keys/masks/routes with other sources, one "
+          "entry or the order apart, consecutive chips of routes from routing_tree_to_tables), each chip judged against "
+          "its own table: the model is pure and per-chip, so state kept between calls or chips is detected. "
           "DEEPENING: (1) the library's own checker utils.table_is_subset_of (with expand_entries, expand_entry, "
           "get_common_xs, intersect) is modelled exactly and PROVED exact for RouteSame (= RouteEquiv without the "
           "source-direction clause, which the function never looks at) whenever the first table is well formed and "
@@ -98,7 +102,17 @@ RULE = ("tables of 0-40 entries over 3-10 active key bits embedded at random pos
         "merge overlaps it, preferably on keys outside the earlier aliases; each call must equal the pure model on its "
         "own table and pass the RouteEquiv oracle; a finding carries the whole history and is re-run in a fresh "
         "interpreter (extended to all earlier histories if it is not self-contained); the main stream then runs after "
-        "the histories in the same process; deepening streams: user alias dictionaries that satisfy "
+        "the histories in the same process; RELATED-tables streams: 300/6000 minimise_tables calls over 2-8 chips whose "
+        "tables are related - same keys/masks/routes/order with re-drawn sources (default-routable, unknown, other link, "
+        "several, core), identical up to one entry, identical up to order, identical, or the per-chip tables produced by "
+        "the library's routing_tree_to_tables from 2-5 small trees (straight runs with a branch, ending on cores; "
+        "consecutive chips carry the same entries) - with the dictionary order rotated/shuffled and targets int (one "
+        "length for all chips) / None / dict (often the same length); every chip's result is judged by the Lean "
+        "RouteEquiv oracle against THAT chip's own table, compared with the per-chip pure model, length and target "
+        "checked; 60/1500 histories of 2-5 calls (remove_default_routes, ordered_covering, ordered_covering.minimise, "
+        "minimise_table, sometimes one minimise_tables) on such a related family in one process; a finding of a history "
+        "whose failing call reproduces alone in a fresh interpreter is reported as that single (whole) call; deepening "
+        "streams: user alias dictionaries that satisfy "
         "AliasCover by construction (own key/mask or all halves after fixing 1-2 X positions, plus extras and unused keys; "
         "the precondition is decided in Lean for every dictionary of both alias streams); 500/6000 pairs (a, b) of tables "
         "over 2-6 active bits with a shared base (a orthogonal / overlapping sorted / ill-formed; b = minimised a, "
@@ -724,6 +738,217 @@ def gen_mts(rng):
     return {"kind": "mts", "chips": chips, "mode": mode, "methods": rng.choice(METHOD_LISTS)}
 
 
+# ---- RELATED tables: the chips of one minimise_tables call (and the calls of one process) usually carry nearly the same
+# traffic, so anything that identifies a table by less than its full content (keys, masks, routes AND sources, order)
+# only misbehaves when related tables meet.
+def vary_sources(rng, table, flavour=None):
+    """same keys/masks/routes/order, sources re-drawn: default-routable (the opposite link), unknown, another link,
+    opposite + unknown, several links, a core"""
+    out = []
+    flavour = flavour or rng.choice(["default", "unknown", "mixed", "mixed", "other"])
+    for r, k, m, s0 in table:
+        links = [i for i in range(6) if r == 1 << i]
+        f = flavour if flavour != "mixed" else rng.choice(["default", "unknown", "other", "keep", "multi", "core"])
+        if f == "default" and links:
+            s1 = 1 << ((links[0] + 3) % 6)
+        elif f == "unknown" or (f == "default" and not links):
+            s1 = 1 << NONE_BIT
+        elif f == "other":
+            s1 = 1 << rng.randrange(6)
+        elif f == "multi":
+            s1 = (1 << ((links[0] + 3) % 6) if links else 1 << rng.randrange(6)) | rng.choice([1 << NONE_BIT, 1 << rng.randrange(6)])
+        elif f == "core":
+            s1 = 1 << rng.randrange(6, 24)
+        else:
+            s1 = s0
+        out.append([r, k, m, s1])
+    return out
+
+
+def vary_one_entry(rng, table, routes):
+    """identical up to one entry (route changed, entry removed, entry added, key bit flipped); re-sorted by generality
+    so that the variant is again in the claimed domain"""
+    t = [list(e) for e in table]
+    r = rng.random()
+    if t and r < 0.3:
+        t[rng.randrange(len(t))][0] = rng.choice(routes + [1 << rng.randrange(6)])
+    elif t and r < 0.5:
+        del t[rng.randrange(len(t))]
+    elif t and r < 0.75:
+        e = list(rng.choice(t))
+        bits = [b for b in range(32) if (e[2] >> b) & 1]
+        if bits:
+            e[1] ^= 1 << rng.choice(bits)
+        e[0] = rng.choice(routes)
+        t.append(e)
+    elif t:
+        i = rng.randrange(len(t))
+        bits = [b for b in range(32) if (t[i][2] >> b) & 1]
+        if bits:
+            t[i][1] ^= 1 << rng.choice(bits)
+    t.sort(key=lambda e: generality(e[1], e[2]))
+    return t
+
+
+def vary_order(rng, table, kind):
+    t = [list(e) for e in table]
+    rng.shuffle(t)
+    if kind != "orth":
+        t.sort(key=lambda e: generality(e[1], e[2]))      # stable: a permutation inside each generality class
+    return t
+
+
+def gen_link_table(rng):
+    """a small orthogonal table of single-link routes (the bulk of real tables): full-mask keys over 2-4 bits"""
+    nb = rng.choice([2, 3, 3, 4])
+    pos = sorted(rng.sample(range(32), nb))
+    base_mask = M32 & ~sum(1 << b for b in pos) if rng.random() < 0.7 else 0
+    base_key = rng.getrandbits(32) & base_mask
+    links = [1 << l for l in rng.sample(range(6), rng.randint(1, 2))]
+    table = []
+    for v in rng.sample(range(1 << nb), rng.randint(1, min(6, 1 << nb))):
+        key = base_key | sum(1 << b for j, b in enumerate(pos) if (v >> j) & 1)
+        mask = base_mask | sum(1 << b for b in pos)
+        r = rng.choice(links) if rng.random() < 0.85 else rng.choice([1 << rng.randrange(6, 24), 3, 1 | (1 << 7)])
+        table.append([r, key, mask, 1 << NONE_BIT])
+    return "orth", table, links
+
+
+def related_family(rng, n):
+    """n tables related to one base table"""
+    if rng.random() < 0.5:
+        kind, base, routes = gen_link_table(rng)
+    else:
+        kind, base = gen_table(rng, None, max_n=10)
+        routes = sorted({e[0] for e in base}) or [1]
+    base = [e if e[3] else [e[0], e[1], e[2], 1 << NONE_BIT] for e in base]
+    style = rng.choice(["sources", "sources", "sources", "mixed", "mixed", "one", "order"])
+    fam = []
+    for i in range(n):
+        how = style if style != "mixed" else rng.choice(["sources", "sources", "one", "order", "same"])
+        if how == "sources":
+            t = vary_sources(rng, base)
+        elif how == "one":
+            t = vary_one_entry(rng, base, routes)
+            if rng.random() < 0.5:
+                t = vary_sources(rng, t)
+        elif how == "order":
+            t = vary_order(rng, base, kind)
+            if rng.random() < 0.3:
+                t = vary_sources(rng, t)
+        else:
+            t = [list(e) for e in base]
+        fam.append(t)
+    if rng.random() < 0.5:
+        fam[rng.randrange(n)] = [list(e) for e in base]
+    return kind, fam
+
+
+def tree_tables(rng):
+    """per-chip tables made by the library's own routing_tree_to_tables from 2-5 small trees (straight runs with an
+    optional branch, ending on cores) with distinct keys: consecutive chips of a run carry identical entries, the
+    source chip the same entry with unknown source, the last chip the same key to a core"""
+    from rig.routing_table import Routes
+    from rig.routing_table.utils import routing_tree_to_tables
+    from rig.place_and_route.routing_tree import RoutingTree
+    vec = {0: (1, 0), 1: (1, 1), 2: (0, 1), 3: (-1, 0), 4: (-1, -1), 5: (0, -1)}
+    nb = rng.choice([2, 3])
+    pos = sorted(rng.sample(range(32), nb))
+    mask = M32 if rng.random() < 0.6 else sum(1 << b for b in pos)
+    keys = rng.sample(range(1 << nb), rng.randint(2, min(5, 1 << nb)))
+    start = (rng.randint(0, 1), rng.randint(0, 1))
+    d0 = rng.randrange(6)
+    routes, net_keys = {}, {}
+
+    def run(chip, d, hops, branch):
+        """the tree below `chip` when the route leaves it in direction d"""
+        nxt = (chip[0] + vec[d][0], chip[1] + vec[d][1])
+        if hops == 0:
+            return RoutingTree(chip, [(Routes.core(rng.randint(1, 4)), object())])
+        kids = [(Routes(d), run(nxt, d, hops - 1, False))]
+        if branch and rng.random() < 0.5:
+            d2 = (d + rng.choice([1, 5])) % 6
+            n2 = (chip[0] + vec[d2][0], chip[1] + vec[d2][1])
+            kids.append((Routes(d2), run(n2, d2, rng.randint(0, 2), False)))
+        if branch and rng.random() < 0.2:
+            kids.append((Routes.core(rng.randint(1, 4)), object()))
+        return RoutingTree(chip, kids)
+    for i, kv in enumerate(keys):
+        key = sum(1 << b for j, b in enumerate(pos) if (kv >> j) & 1)
+        same = rng.random() < 0.7
+        st = start if same else (start[0] + rng.randint(-1, 1), start[1] + rng.randint(-1, 1))
+        routes[i] = run(st, d0 if same or rng.random() < 0.5 else rng.randrange(6), rng.randint(1, 5), True)
+        net_keys[i] = (key, mask)
+    tables = routing_tree_to_tables(routes, net_keys)
+    return [from_impl(t) for _, t in sorted(tables.items())]
+
+
+def gen_mts_related(rng):
+    """one minimise_tables call over 2-8 RELATED chips, dictionary order rotated / shuffled"""
+    n = rng.choice([2, 2, 3, 3, 4, 5, 6, 8])
+    r = rng.random()
+    how = "family"
+    if r < 0.3:
+        try:
+            fam = tree_tables(rng)
+            how = "trees"
+        except (ImportError, SyntaxError):
+            raise
+        except Exception:
+            fam = []
+        if len(fam) < 2:
+            _, fam = related_family(rng, n)
+            how = "family"
+        fam = fam[:8]
+    else:
+        _, fam = related_family(rng, n)
+    chips = [{"chip": i, "table": t, "target": None} for i, t in enumerate(fam)]
+    k = rng.randrange(len(chips))
+    chips = chips[k:] + chips[:k]
+    if rng.random() < 0.4:
+        rng.shuffle(chips)
+    mode = rng.choice(["int", "int", "none", "none", "dict"])
+    if mode == "int":
+        t = rng.randint(0, 1 + max(len(ch["table"]) for ch in chips))
+        for ch in chips:
+            ch["target"] = t
+    elif mode == "dict":
+        same = rng.random() < 0.5
+        t = rng.randint(0, 1 + max(len(ch["table"]) for ch in chips))
+        for ch in chips:
+            ch["target"] = t if same and rng.random() < 0.8 else gen_target(rng, len(ch["table"]))
+    return {"kind": "mts", "related": how, "chips": chips, "mode": mode, "methods": rng.choice(METHOD_LISTS)}
+
+
+def gen_related_history(rng):
+    """2-5 calls in one process on RELATED tables (remove_default_routes / ordered_covering / ordered_covering.minimise /
+    minimise_table per plain call, sometimes one minimise_tables over the family): state kept between calls and
+    keyed by less than the whole table shows up as a mismatch or a route-changed violation; runs the calls"""
+    n = rng.choice([2, 3, 3, 4, 5])
+    if rng.random() < 0.25:
+        try:
+            fam = tree_tables(rng)[:5]
+        except (ImportError, SyntaxError):
+            raise
+        except Exception:
+            fam = []
+        kind = "orth"
+        if len(fam) < 2:
+            kind, fam = related_family(rng, n)
+    else:
+        kind, fam = related_family(rng, n)
+    steps = []
+    for t in fam:
+        st = plain_step(rng, t)
+        st["kind"] = kind if kind in ("orth", "sorted") else "sorted"
+        steps.append(st)
+    if rng.random() < 0.3:
+        steps.insert(rng.randrange(len(steps) + 1),
+                     {"kind": "mts", "mode": "none", "methods": rng.choice(METHOD_LISTS),
+                      "chips": [{"chip": i, "table": t, "target": None} for i, t in enumerate(fam)]})
+    return {"kind": "hist", "related": True, "steps": steps}, impl_steps(steps)
+
+
 def mts_impl(c):
     from rig.routing_table import minimise as mm
     tables = {(ch["chip"], 0): to_impl(ch["table"]) for ch in c["chips"]}
@@ -758,6 +983,8 @@ def eval_mts(ctx, cases, impls=None, ctxs=None):
         ctx = ctxs[ci] if ctxs else ctx0
         ctx.traces += 1
         ctx.tag("kind_mts")
+        if c.get("related"):
+            ctx.tag("mts_related_" + c["related"], "mts_related_chips_%s" % ("2-3" if len(c["chips"]) < 4 else "4-8"))
         if models[ci] != impl:
             ctx.mismatch("c04.mts", "impl=%r model=%r" % (impl, models[ci]), c)
         if "exc" in impl:
@@ -1012,6 +1239,15 @@ def confirm_findings(ctx):
                 mine = [im for h, im in HIST_LOG if h["steps"] is case["steps"] or h["steps"] == case["steps"]]
                 if not mine:
                     continue
+                fs = case.get("failed_step")
+                if fs is not None and fs < len(mine[0]) and len(case["steps"]) > 1:
+                    # does the failing call fail on its own (nothing carried over from the earlier calls)?
+                    alone = fresh_impl([case["steps"][fs]])[0]
+                    if common.canon(alone) == common.canon(mine[0][fs]):
+                        ctx.tag("hist_finding_single_call")
+                        front.append((key, what + " [the call alone reproduces it: the replay is that call]",
+                                      case["steps"][fs]))
+                        continue
                 if common.canon(fresh_impl(case["steps"])) == common.canon(mine[0]):
                     ctx.tag("hist_finding_self_contained")
                     continue
@@ -1529,7 +1765,9 @@ def run(ctx):
                         "the front end reports failure although the table fits: _identity uses '<')",
                         "CPython: sorted() is stable, dict/set membership semantics",
                         "the minimisers are pure functions of their arguments: the model has no state, so calls made "
-                        "earlier in the same process must not influence a result (checked by the history stream)"]
+                        "earlier in the same process must not influence a result (checked by the history stream)",
+                        "minimise_tables treats every chip independently: a chip's result depends on that chip's table "
+                        "(keys, masks, routes, sources, order) and target only (checked on related chips in one call)"]
     try:
         install_probes()
     except Exception:
@@ -1547,8 +1785,17 @@ def run(ctx):
         batch = [gen_history(rng) for _ in range(min(100, nh - i))]
         HIST_LOG.extend(batch)
         eval_hist(ctx, [h for h, _ in batch], [im for _, im in batch])
+    nr = ctx.scale(60, 1500) * (4 if ctx.extended else 1)
+    for i in range(0, nr, 100):
+        batch = [gen_related_history(rng) for _ in range(min(100, nr - i))]
+        HIST_LOG.extend(batch)
+        ctx.tag(*["hist_related" for _ in batch])
+        eval_hist(ctx, [h for h, _ in batch], [im for _, im in batch])
     cases = [{"kind": "sorted", "table": [], "target": None, "target2": None, "methods": ["rd", "oc"], "internals": True},
              {"kind": "sorted", "table": [], "target": 0, "target2": 0, "methods": ["rd", "oc"], "internals": False}]
+    # minimise_tables over RELATED chips (same keys/masks/routes with other sources, one entry apart, reordered,
+    # consecutive chips of routes made by routing_tree_to_tables)
+    cases += [gen_mts_related(rng) for _ in range(ctx.scale(300, 6000) * (4 if ctx.extended else 1))]
     for i in range(n):
         r = rng.random()
         if r < 0.08:
